@@ -558,6 +558,9 @@ class Circuit(Unitary, StateVectorMap, Collection[Operation]):
         if len(qudit_permutation) != len(set(qudit_permutation)):
             raise ValueError('Invalid permutation.')
 
+        if any(q < 0 or q >= self.num_qudits for q in qudit_permutation):
+            raise IndexError('Qudit index out of range in permutation.')
+
         perm = [int(q) for q in qudit_permutation]
 
         perm_point = lambda p: CircuitPoint(p.cycle, perm[p.qudit])
